@@ -108,23 +108,23 @@ class SyncWorld:
             w.events.append((kind, sid, arg, w.clock.now, w.nstep))
 
         def on_connect(sid, environ):
+            rec('connect', sid, None)        # the event fires at entry to the handler
             w.sched.point('handler')
-            rec('connect', sid, None)
             return w._effects(w.beh.connect(sid, environ))
 
         def on_message(sid, data):
-            w.sched.point('handler')
             rec('message', sid, data)
+            w.sched.point('handler')
             return w._effects(w.beh.message(sid, data))
         if legacy:
             def on_disconnect(sid):
-                w.sched.point('handler')
                 rec('disconnect', sid, None)
+                w.sched.point('handler')
                 return w._effects(w.beh.disconnect(sid, None))
         else:
             def on_disconnect(sid, reason):
-                w.sched.point('handler')
                 rec('disconnect', sid, reason)
+                w.sched.point('handler')
                 return w._effects(w.beh.disconnect(sid, reason))
         if 'connect' in handlers:
             self.server.on('connect', on_connect)
